@@ -11,8 +11,14 @@ RULE = ('database states are built through the real ircdb API (newUser/setUser/a
         'random add/modify/delete sequences; real flush -> new instance open.  The flushed text is compared with the model writer, the '
         'reloaded state (and the swallowed exception, nextId, class-level creator variable) with the model reader, the domain predicate '
         'is evaluated by the extracted model, and dump-before = dump-after is evaluated directly.  A second, hostile stream feeds '
-        'hand-made and mutated file texts to the real readers and the model readers.  non-trivial = distinct case with at least one record')
+        'hand-made and mutated file texts to the real readers and the model readers.  Every other state case is saved under one configuration and '
+        'loaded under another (supybot.protocols.irc.strictRfc off->on, on->off, on->on for channels/networks/ignores, with ban masks that addBan accepts '
+        'only while strictRfc is off: extbans, masks without ! / @; databases.users.timeoutIdentification 0<->1 for users); the load-time strictRfc is an '
+        'input of the model channel reader.  non-trivial = distinct case with at least one record')
 TRUSTED = ['str.isspace table, rfc1459 fold table, writer keywords and Creator method names are regenerated from the source (T16)',
+           'configuration: T16.CONF_READ_* = options read by the code reachable from each reader / the writers (typed call graph over ircdb.py and '
+           'unpreserve.py; calls into utils/ircutils/log are not followed, ircutils.py is checked to contain no conf access); the users reader reaches '
+           'databases.users.timeoutIdentification (IrcUser.checkHostmask, only used for auth entries, which a loaded account does not have)',
            'modelled domain of primitives: str.lower()/re.I are ASCII-only in the model (generators avoid cased non-ASCII letters in names, '
            'commands and hostmasks); int()/float()/safeEval() are modelled for sign+ASCII digits(+fraction) and True/False/None/integers with trailing blanks or a # comment '
            '(generators avoid underscores, exponents, inf/nan, other literals); set iteration order is an input of the writer',
@@ -51,6 +57,19 @@ def _ircdb():
             _state['exc'].append(sys.exc_info()[0].__name__ if sys.exc_info()[0] else 'logged')
         ircdb.log.exception = rec
     return _state['ircdb']
+
+
+def apply_cfg(c=None):
+    """put the configuration options the readers/writers can reach (T16.CONF_READ_*) into a given state;
+    no argument = the defaults"""
+    import supybot.conf as conf
+    c = c or {}
+    conf.supybot.protocols.irc.strictRfc.setValue(bool(c.get('strict', False)))
+    conf.supybot.databases.users.timeoutIdentification.setValue(int(c.get('timeout', 0)))
+
+
+def cfg_of(inp, when):
+    return (inp.get('cfg') or {}).get(when) or {}
 
 
 def scratch(name):
@@ -245,6 +264,7 @@ def _final(inp):
     key = wire.enc([str(inp)])
     if _state.get('final_key') != key:
         ircdb = _ircdb()
+        apply_cfg(cfg_of(inp, 'save'))
         if inp.get('db') == 'users':
             _state['final'] = users_case(ircdb, inp['ops'])[0]
         elif inp.get('db') == 'channels':
@@ -253,6 +273,7 @@ def _final(inp):
             _state['final'] = inp['ops']
         else:
             _state['final'] = None
+        apply_cfg()
         _state['final_key'] = key
     return _state['final']
 
@@ -492,6 +513,8 @@ def load_chans(ircdb, text, n0=None):
 
 CHANS = ['#chan', '#Chan', '#CHAN', '#other', '&loc', '#[x]', '#{x}', '#é', '#a b', '#t\tb', ' #lead', '#nl\n  lobotomized True', '']
 BANS = ['a!b@c', 'A!B@C', '*!*@host', 'q!w@e', 'x!y@z\n', 'né!u@h']
+# masks IrcChannel.addBan accepts only while supybot.protocols.irc.strictRfc is off: extbans, masks without ! / @
+LENIENT_BANS = ['$a:Troll', '~q:nick!*@*', 'nomask', '*', '$r:*bot*']
 
 
 def gen_chan_ops(rng, hostile):
@@ -505,11 +528,12 @@ def gen_chan_ops(rng, hostile):
         elif k < 0.4:
             ops.append(['uncap', ch, rng.choice(['-op', '-voice', 'op', 'x', '-halfop'] if hostile else ['x', 'op', 'admin'])])
         elif k < 0.6:
-            ops.append(['ban', ch, rng.choice(BANS), rng.choice([0, 0, 1700000000, 5, 1700000000.7 if hostile else 6])])
+            ops.append(['ban', ch, rng.choice(BANS[:4] + BANS[5:] + LENIENT_BANS + (BANS[4:5] if hostile else [])),
+                        rng.choice([0, 0, 1700000000, 5, 1700000000.7 if hostile else 6])])
         elif k < 0.65:
             ops.append(['unban', ch, rng.choice(BANS)])
         elif k < 0.8:
-            ops.append(['ign', ch, rng.choice(BANS), rng.choice([0, 99, 1700000001])])
+            ops.append(['ign', ch, rng.choice(BANS[:4] + BANS[5:] + LENIENT_BANS[:2] + (BANS[4:5] if hostile else [])), rng.choice([0, 99, 1700000001])])
         else:
             ops.append(['flags', ch, rng.random() < 0.5, rng.random() < 0.5])
     return ops
@@ -640,11 +664,21 @@ def gen_ign_ops(rng, hostile):
 
 
 # ---------------------------------------------------------------------------
-def check_users_state(ctx, ircdb, ops, kind, batch):
-    inp = {'db': 'users', 'ops': ops}
+def mk_inp(db, ops, cfg):
+    inp = {'db': db, 'ops': ops}
+    if cfg:
+        inp['cfg'] = cfg
+    return inp
+
+
+def check_users_state(ctx, ircdb, ops, kind, batch, cfg=None):
+    inp = mk_inp('users', ops, cfg)
+    apply_cfg(cfg_of(inp, 'save'))
     before, text = users_case(ircdb, ops)
     ctx.case(kind, inp, nontrivial=bool(before))
+    apply_cfg(cfg_of(inp, 'load'))
     detail, after = users_oracle(ircdb, before, text)
+    apply_cfg()
     batch.append(('users', inp, before, text, detail))
     return detail
 
@@ -656,7 +690,8 @@ def flush_batch(ctx, ircdb, batch):
         if db == 'users':
             cases += [[0, [wire_user(u) for u in before]], [1, [[], text]], [2, [wire_user(u) for u in before]]]
         elif db == 'channels':
-            cases += [[3, [[k, c] for k, c in before]], [4, [[], text]], [5, [[k, c] for k, c in before]]]
+            cases += [[3, [[k, c] for k, c in before]], [14, [bool(cfg_of(inp, 'load').get('strict')), [], text]],
+                      [5, [[k, c] for k, c in before]]]
         elif db == 'networks':
             cases += [[6, [[k, n] for k, n in before]], [7, [[], text]], [8, [[k, n] for k, n in before]]]
         elif db == 'ignores':
@@ -665,6 +700,7 @@ def flush_batch(ctx, ircdb, batch):
     outs = ctx.model(cases)
     i = 0
     for db, inp, before, text, detail in batch:
+        apply_cfg(cfg_of(inp, 'load'))
         if db == 'users':
             w, r, dom = outs[i:i + 3]
             i += 3
@@ -678,7 +714,7 @@ def flush_batch(ctx, ircdb, batch):
                 ctx.disagree(inp, mod, impl, 'UsersDictionary.open of the flushed text')
             if dom == 1 and detail is not None:
                 # inside the proved domain the property must hold: never attribute this to a known class
-                ctx.fail({'db': 'users', 'ops': inp['ops'], 'in_domain': True}, 'inside users_dom: ' + detail)
+                ctx.fail(dict(inp, in_domain=True), 'inside users_dom: ' + detail)
             if dom == 1:
                 ctx.dist['users-inside-domain'] += 1
             if dom == 0 and detail is None:
@@ -691,7 +727,7 @@ def flush_batch(ctx, ircdb, batch):
             if dom == 1:
                 ctx.dist['channels-inside-domain'] += 1
                 if detail is not None:
-                    ctx.fail({'db': 'channels', 'ops': inp['ops'], 'in_domain': True}, 'inside the proved domain: ' + detail)
+                    ctx.fail(dict(inp, in_domain=True), 'inside the proved domain: ' + detail)
             elif detail is None:
                 ctx.dist['channels-outside-domain-but-round-trips'] += 1
             if wire.s(w) != text:
@@ -709,7 +745,7 @@ def flush_batch(ctx, ircdb, batch):
             if dom == 1:
                 ctx.dist['networks-inside-domain'] += 1
                 if detail is not None:
-                    ctx.fail({'db': 'networks', 'ops': inp['ops'], 'in_domain': True}, 'inside the proved domain: ' + detail)
+                    ctx.fail(dict(inp, in_domain=True), 'inside the proved domain: ' + detail)
             elif detail is None:
                 ctx.dist['networks-outside-domain-but-round-trips'] += 1
             if wire.s(w) != text:
@@ -727,7 +763,7 @@ def flush_batch(ctx, ircdb, batch):
             if dom == 1:
                 ctx.dist['ignores-inside-domain'] += 1
                 if detail is not None:
-                    ctx.fail({'db': 'ignores', 'ops': inp['ops'], 'in_domain': True}, 'inside the proved domain: ' + detail)
+                    ctx.fail(dict(inp, in_domain=True), 'inside the proved domain: ' + detail)
             elif detail is None:
                 ctx.dist['ignores-outside-domain-but-round-trips'] += 1
             if wire.s(w) != text:
@@ -736,6 +772,7 @@ def flush_batch(ctx, ircdb, batch):
             mod = [[wire.s(p[0]), p[1]] for p in r]
             if impl != mod:
                 ctx.disagree(inp, mod, impl, 'IgnoresDB.open of the flushed text')
+    apply_cfg()
     del batch[:]
 
 
@@ -772,14 +809,19 @@ def ign_oracle(ircdb, before, text):
     return None
 
 
-def check_state(ctx, ircdb, db, ops, kind, batch):
-    inp = {'db': db, 'ops': ops}
+def check_state(ctx, ircdb, db, ops, kind, batch, cfg=None):
+    """cfg = {'save': {...}, 'load': {...}}: the configuration in force while the state is built and flushed,
+    and the one in force when the file is loaded again (keys: strict, timeout; missing = default)"""
+    inp = mk_inp(db, ops, cfg)
     if db == 'users':
-        return check_users_state(ctx, ircdb, ops, kind, batch)
+        return check_users_state(ctx, ircdb, ops, kind, batch, cfg)
     case, oracle = {'channels': (chans_case, chans_oracle), 'networks': (nets_case, nets_oracle), 'ignores': (ign_case, ign_oracle)}[db]
+    apply_cfg(cfg_of(inp, 'save'))
     before, text = case(ircdb, ops)
     ctx.case(kind, inp, nontrivial=bool(before))
+    apply_cfg(cfg_of(inp, 'load'))
     detail = oracle(ircdb, before, text)
+    apply_cfg()
     batch.append((db, inp, before, text, detail))
     return detail
 
@@ -798,13 +840,16 @@ def check_texts(ctx, ircdb, db, texts, kind):
             if impl != mod:
                 ctx.disagree(inp, mod, impl, 'UsersDictionary.open(text)')
     elif db == 'channels':
-        outs = ctx.model([[4, [wire.opt(n0), t]] for t, n0 in texts])
-        for (t, n0), r in zip(texts, outs):
-            inp = {'db': 'channels-text', 'text': t, 'n0': n0}
+        stricts = [i % 3 == 2 for i in range(len(texts))]
+        outs = ctx.model([[14, [st, wire.opt(n0), t]] for (t, n0), st in zip(texts, stricts)])
+        for (t, n0), r, st in zip(texts, outs, stricts):
+            inp = {'db': 'channels-text', 'text': t, 'n0': n0, 'strict_load': st}
             ctx.case(kind, inp, nontrivial=bool(t.strip()))
             if r is None:
                 continue
+            apply_cfg({'strict': st})
             dump, exc, after = load_chans(ircdb, t, n0)
+            apply_cfg()
             impl = [canon_chans_o(dump), exc, after]
             mod = [canon_chans_o([[wire.s(kv[0]), dec_chan(kv[1])] for kv in r[0]]), wire.o(r[1], lambda c: wire.EXN[c]), wire.o(r[2], wire.s)]
             if impl != mod:
@@ -851,6 +896,12 @@ CORPUS = [
                                ['sts', 'oftc', 'a.b', 'p']]},
     {'db': 'ignores', 'ops': [['add', 'a!b@c', 0], ['add', 'q!w@e', NOW + 50.5], ['add', 'A!B@C', NOW - 10]]},
     {'db': 'ignores', 'ops': [['add', '#x!y@z', 0]]},
+    {'db': 'channels', 'ops': [['ban', '#alpha', 'a!b@c', 0], ['ban', '#help', '$a:Troll', 0], ['flags', '#zeta', True, True]],
+     'cfg': {'save': {'strict': False}, 'load': {'strict': True}}},
+    {'db': 'channels', 'ops': [['ban', '#help', 'nomask', 1700000000], ['ban', '#help', '~q:nick!*@*', 0]],
+     'cfg': {'save': {'strict': False}, 'load': {'strict': True}}},
+    {'db': 'channels', 'ops': [['ban', '#help', 'a!b@c', 5], ['ign', '#help', 'q!w@e', 0]], 'cfg': {'save': {'strict': True}, 'load': {'strict': False}}},
+    {'db': 'ignores', 'ops': [['add', 'a!b@c', 0], ['add', 'q!w@e', NOW + 50.5]], 'cfg': {'save': {'strict': False}, 'load': {'strict': True}}},
 ]
 CORPUS_TEXTS = [
     ('users', 'user 1\n  name a\n  capability owner\n\nuser 2\n  name b\n', None),
@@ -872,7 +923,7 @@ def run(ctx):
     rng = ctx.rng
     batch = []
     for c in CORPUS:
-        d = check_state(ctx, ircdb, c['db'], c['ops'], 'corpus-' + c['db'], batch)
+        d = check_state(ctx, ircdb, c['db'], c['ops'], 'corpus-' + c['db'], batch, c.get('cfg'))
         if d:
             ctx.fail(c, d)
     flush_batch(ctx, ircdb, batch)
@@ -885,9 +936,18 @@ def run(ctx):
         for n in range(ctx.n(budget[db])):
             hostile = (n % 3 == 2)
             ops = gen(rng, hostile)
-            d = check_state(ctx, ircdb, db, ops, db + ('-hostile' if hostile else '-valid'), batch)
+            cfg, tag = None, ''
+            if n % 2 == 1:
+                # save under one configuration, load under another
+                if db in ('channels', 'ignores', 'networks'):
+                    sv, ld = rng.choice([(False, True), (False, True), (True, False), (True, True)])
+                    cfg, tag = {'save': {'strict': sv}, 'load': {'strict': ld}}, '-strictRfc:%s->%s' % ('on' if sv else 'off', 'on' if ld else 'off')
+                else:
+                    sv, ld = rng.choice([(0, 1), (1, 0), (1, 1)])
+                    cfg, tag = {'save': {'timeout': sv}, 'load': {'timeout': ld, 'strict': rng.random() < 0.5}}, '-cfg-varied'
+            d = check_state(ctx, ircdb, db, ops, db + ('-hostile' if hostile else '-valid') + tag, batch, cfg)
             if d:
-                ctx.fail({'db': db, 'ops': ops}, d)
+                ctx.fail(mk_inp(db, ops, cfg), d)
             if n % 4 == 0:
                 t = batch[-1][3]
                 for _ in range(rng.randint(1, 3)):
@@ -930,7 +990,7 @@ def replay(ctx, inp):
     db = inp.get('db')
     sub = type(ctx)(ctx.pid, ctx.tier, ctx.seed, {'model_ok': False})
     if db in ('users', 'channels', 'networks', 'ignores'):
-        return check_state(sub, ircdb, db, inp['ops'], 'replay', [])
+        return check_state(sub, ircdb, db, inp['ops'], 'replay', [], inp.get('cfg'))
     return None
 
 
@@ -938,5 +998,5 @@ def shrink(ctx, inp):
     if inp.get('db') not in ('users', 'channels', 'networks', 'ignores'):
         return inp
     extra = {k: v for k, v in inp.items() if k not in ('db', 'ops')}
-    ops = shrink_seq(inp['ops'], lambda o: replay(ctx, {'db': inp['db'], 'ops': o}) is not None, budget=120)
+    ops = shrink_seq(inp['ops'], lambda o: replay(ctx, dict(extra, db=inp['db'], ops=o)) is not None, budget=120)
     return dict({'db': inp['db'], 'ops': ops}, **extra)
